@@ -211,16 +211,29 @@ def same_formula(ctx, R="R-C06-same-formula"):
         hs = [x for x in astq.func_calls(f) if astq.attr_call(x, "_H")]
         ok = len(hs) == 1 and astq.text(hs[0].args[1]) == "filt_idx"
         ctx.check(ok, R, f, hs[0] if hs else MISSING(f.node), "gammatone.%s evaluates the closed form _H for its own filter" % meth, "gammatone.%s does not call self._H(omega, filt_idx)" % meth)
-    f = prog.own_method(c, "get_truncated_response")
-    om = [n for n in f.body_nodes() if isinstance(n, ast.Assign) and astq.is_name(n.targets[0], "omega")]
-    am = [n for n in f.body_nodes() if isinstance(n, ast.AugAssign) and astq.is_name(n.target, "omega")]
-    ok = len(om) == 1 and astq.eq_text(om[0].value, "np.arange(left_idx,right_idx+1,dtype=np.float64)") and len(am) == 1 and \
-        astq.eq_text(am[0].value, "2*np.pi/width") and isinstance(am[0].op, ast.Mult)
-    ctx.check(ok, R, f, om[0] if om else MISSING(f.node), "gammatone: truncated bins left_idx..right_idx sit at 2 pi idx / width")
-    f = prog.own_method(c, "get_frequency_response")
-    om = [n for n in f.body_nodes() if isinstance(n, ast.Assign) and astq.is_name(n.targets[0], "omega")]
-    ok = len(om) == 1 and astq.eq_text(om[0].value, "np.arange(dft_size,dtype=np.float64)*2*np.pi/width")
-    ctx.check(ok, R, f, om[0] if om else MISSING(f.node), "gammatone: full bins 0..dft_size-1 sit at 2 pi idx / width")
+    # the grid H is evaluated on, by value at the call of _H: 2 pi idx / width over the bins of the buffer
+    for meth, grid_txt, what_ in (("get_truncated_response", "np.arange(left_idx, right_idx + 1, dtype=np.float64)", "gammatone: truncated bins left_idx..right_idx sit at 2 pi idx / width"),
+                                  ("get_frequency_response", "np.arange(dft_size, dtype=np.float64)", "gammatone: full bins 0..dft_size-1 sit at 2 pi idx / width")):
+        f = prog.own_method(c, meth)
+        hs = [x for x in astq.func_calls(f) if astq.attr_call(x, "_H")]
+        if len(hs) != 1:
+            continue
+        pm_ = astq.parents(f)
+        st_ = astq.enclosing_stmt(pm_, hs[0])
+        try:
+            ev_ = SymEval(prog, f).run()
+            got_ = ev_.eval_at(st_, hs[0].args[0])
+            # the per-period shift is the frequency response's own business (checked by the periodisation rule): compare at period 0
+            loops_ = [a for a in astq.ancestors(pm_, hs[0]) if isinstance(a, ast.For) and isinstance(a.target, ast.Name)]
+            for lp_ in loops_:
+                got_ = S.subst(got_, {lp_.target.id: S.ZERO})
+            grid_ = ev_.eval_at(st_, ast.parse(grid_txt, mode="eval").body)
+            want_ = S.truediv(S.mul(S.mul(grid_, S.lift(2)), S.PI), ev_.eval_at(st_, ast.parse(f.params[2], mode="eval").body))
+            same_ = S.compare(got_, want_, domain={})["verdict"] == "equal"
+        except Exception as e:
+            ctx.error(R, "cannot decide %s: %r" % (what_, e))
+            continue
+        ctx.check(same_, R, f, st_, what_, "H is evaluated at %s" % S.show(got_)[:160])
     # bin bounds of Gabor / gammatone truncation
     for name, lo, hi in (("GaborFilterBank", "lowest_ang", "highest_ang"), ("ComplexGammatoneFilterBank", "left_sup", "right_sup")):
         f = prog.own_method(fc.bank(prog, name), "get_truncated_response")
